@@ -120,6 +120,10 @@ theorem gen_asg : ∀ (n : Nat) (t : Ty), t.w ≤ n → Ty.WF cfg t → t.NoAlia
     | regexp s =>
       simp only [generalize, genericType]
       exact ⟨viaR cfg sfh rfl (by unfold asgRecv; simp), self⟩
+    | runtime rt nm pt =>
+      have : asg cfg sfh (.runtime "" "" none) (.runtime rt nm pt) = true :=
+        viaR cfg sfh rfl (by rw [recv_runtime_eq]; exact rtAcc_default rt nm pt)
+      simp only [generalize, genericType]; exact ⟨this, this⟩
     | tspan r =>
       unfold Ty.GenOK at gt
       simp only [generalize, genericType]
